@@ -87,6 +87,19 @@ func pipelineCmd(args []string) error {
 		}
 	}
 
+	if !*concrete {
+		// how the failure is reported must not matter for whether it is one: every third case goes to a
+		// service with verbose error responses, with an Accept header it can or cannot satisfy
+		accepts := []string{"", "image/png", "application/json", "*/*", "text/html;q=0.2, application/pdf", "application/xml", "text/*"}
+
+		for i := range cases {
+			if i%3 == 1 {
+				cases[i].Verbose = true
+				cases[i].Accept = accepts[(i/3)%len(accepts)]
+			}
+		}
+	}
+
 	w, err := trace.Create(*tracePath)
 	if err != nil {
 		return err
